@@ -105,7 +105,15 @@ class CompleteWorkflowHandler(StabilizeHandler[CompleteWorkflow]):
             # Collect running stages to cancel if not successful
             running_stages = []
             if status != WorkflowStatus.SUCCEEDED:
-                running_stages = [s for s in execution.top_level_stages() if s.status == WorkflowStatus.RUNNING]
+                # In a canceled workflow every stage that is not finished is canceled,
+                # not only the RUNNING ones: a cancel that only wrote the flag
+                # (WorkflowStore.cancel() called directly) produced no CancelStage
+                # fan-out, and the stages that never started would stay NOT_STARTED.
+                running_stages = [
+                    s
+                    for s in execution.top_level_stages()
+                    if s.status == WorkflowStatus.RUNNING or (execution.is_canceled and not s.status.is_complete)
+                ]
 
             # Save pipeline_config_id before cleanup
             pipeline_config_id = execution.pipeline_config_id
